@@ -11,10 +11,56 @@ import (
 )
 
 var (
-	jSep                = byte(':')
-	errJSONPathNotArray = errors.New("json path is not array")
-	errInvalidJSONValue = errors.New("invalid json value")
+	jSep                     = byte(':')
+	errJSONPathNotArray      = errors.New("json path is not array")
+	errInvalidJSONValue      = errors.New("invalid json value")
+	errJSONPathIndexTooLarge = errors.New("json path array index is too large")
 )
+
+// setting an array element beyond the end pads the array with "null," up to the index,
+// so a path whose array indexes sum up above this can never fit in the allowed json value size.
+const maxJSONPathArrayIndex = common.MaxValueSize * 2 / len("null,")
+
+// checkJSONPathIndex refuses a path whose numeric parts (array indexes for sjson) would make
+// the document larger than the allowed json value size, before anything is built.
+func checkJSONPathIndex(path string) error {
+	total := 0
+	part := make([]byte, 0, len(path))
+	for len(path) > 0 {
+		// cut the next part as sjson does: '.' separates the parts, '\\' escapes the next character
+		part = part[:0]
+		i := 0
+		for ; i < len(path) && path[i] != '.'; i++ {
+			if path[i] == '\\' && i+1 < len(path) {
+				i++
+			}
+			part = append(part, path[i])
+		}
+		if i < len(path) {
+			path = path[i+1:]
+		} else {
+			path = ""
+		}
+		n := 0
+		isNum := len(part) > 0
+		for _, c := range part {
+			if c < '0' || c > '9' {
+				isNum = false
+				break
+			}
+			if n <= maxJSONPathArrayIndex {
+				n = n*10 + int(c-'0')
+			}
+		}
+		if isNum {
+			total += n
+			if total > maxJSONPathArrayIndex {
+				return errJSONPathIndexTooLarge
+			}
+		}
+	}
+	return nil
+}
 
 func checkJSONValueSize(value []byte) error {
 	if len(value) > MaxValueSize*2 {
@@ -76,6 +122,9 @@ func (db *RockDB) jSetPath(jdata []byte, path string, value []byte) ([]byte, err
 		v := make([]byte, len(value))
 		copy(v, value)
 		return v, nil
+	}
+	if err := checkJSONPathIndex(path); err != nil {
+		return nil, err
 	}
 	return sjson.SetRawBytes(jdata, path, value)
 }
